@@ -196,19 +196,20 @@ import struct as _real_struct
 
 
 class SxStruct:
+    """struct.pack/unpack for the formats the code base uses: byte order < or >, codes x B b H h"""
+
     error = _real_struct.error
     calcsize = staticmethod(_real_struct.calcsize)
+    Struct = _real_struct.Struct
 
     @staticmethod
     def _parse(fmt):
-        if not fmt.startswith("<"):
+        if not fmt or fmt[0] not in "<>":
             raise Unsupported(f"struct format {fmt!r}")
-        out = []
         for ch in fmt[1:]:
-            if ch not in "xBH":
+            if ch not in "xBbHh":
                 raise Unsupported(f"struct format {fmt!r}")
-            out.append(ch)
-        return out
+        return fmt[0] == ">", list(fmt[1:])
 
     @staticmethod
     def pack(fmt, *vals):
@@ -216,43 +217,291 @@ class SxStruct:
 
         if not any(isinstance(v, SymInt) for v in vals):
             return _real_struct.pack(fmt, *vals)
-        items = SxStruct._parse(fmt)
+        big, items = SxStruct._parse(fmt)
         out, it = [], iter(vals)
         for ch in items:
             if ch == "x":
                 out.append(0)
                 continue
             v = next(it)
-            top = 255 if ch == "B" else 65535
+            lo, hi = {"B": (0, 255), "b": (-128, 127), "H": (0, 65535), "h": (-32768, 32767)}[ch]
             if isinstance(v, SymInt):
-                if not bool(sbool(z3.And(v.e >= 0, v.e <= top))):
-                    raise _real_struct.error(f"'{ch}' format requires 0 <= number <= {top}")
-                if ch == "B":
+                if not bool(sbool(z3.And(v.e >= lo, v.e <= hi))):
+                    raise _real_struct.error(f"'{ch}' format requires {lo} <= number <= {hi}")
+                if lo < 0:  # two's complement
+                    v = SymInt(z3.If(v.e < 0, v.e + (hi - lo + 1), v.e))
+                if ch in "Bb":
                     out.append(v)
                 else:
-                    out += [v & 0xFF, (v >> 8) & 0xFF]
+                    bs = [v & 0xFF, (v >> 8) & 0xFF]
+                    out += bs[::-1] if big else bs
             else:
-                out += list(_real_struct.pack("<" + ch, v))
+                out += list(_real_struct.pack(fmt[0] + ch, v))
         return SymBytes(out)
 
     @staticmethod
     def unpack(fmt, data):
         from .strings import SymBytes
 
-        if not isinstance(data, SymBytes):
-            return _real_struct.unpack(fmt, data)
-        items = SxStruct._parse(fmt)
+        if not isinstance(data, SymBytes) or not any(isinstance(b, SymInt) for b in data):
+            return _real_struct.unpack(fmt, bytes(data) if isinstance(data, SymBytes) else data)
+        big, items = SxStruct._parse(fmt)
         if len(data) != _real_struct.calcsize(fmt):
             raise _real_struct.error(f"unpack requires a buffer of {_real_struct.calcsize(fmt)} bytes")
         out, i = [], 0
         for ch in items:
             if ch == "x":
                 i += 1
-            elif ch == "B":
-                out.append(data[i])
+                continue
+            if ch in "Bb":
+                v = data[i]
                 i += 1
+                top = 256
             else:
-                lo, hi = data[i], data[i + 1]
-                out.append(lo + hi * 256)
+                a, b = data[i], data[i + 1]
+                v = (a * 256 + b) if big else (a + b * 256)
                 i += 2
+                top = 65536
+            if ch in "bh":
+                v = SymInt(z3.If(_e(v) >= top // 2, _e(v) - top, _e(v))) if isinstance(v, SymInt) else (v - top if v >= top // 2 else v)
+            out.append(v)
         return tuple(out)
+
+
+# ------------------------------------------------------------------------------------------
+# timedelta / instants with a symbolic (real-valued) number of seconds
+
+_real_td = _dtmod.timedelta
+
+
+def _secs(x):
+    """-> SymReal seconds of a timedelta-like / number"""
+    from .values import SymReal
+
+    if isinstance(x, SymTimeDelta):
+        return x.secs
+    if isinstance(x, _real_td):
+        import fractions
+
+        return SymReal.const(fractions.Fraction(x.days * 86400 + x.seconds) + fractions.Fraction(x.microseconds, 10**6))
+    return None
+
+
+class SymTimeDelta:
+    def __init__(self, secs):
+        from .values import SymReal, SymInt
+
+        if isinstance(secs, SymInt):
+            secs = secs.as_real()
+        elif not isinstance(secs, SymReal):
+            secs = SymReal.const(secs)
+        self.secs = secs
+
+    def total_seconds(self):
+        return self.secs
+
+    def __add__(self, o):
+        if isinstance(o, (_real_dt, SymInstant)):
+            return SymInstant.of(o) + self
+        s = _secs(o)
+        return NotImplemented if s is None else SymTimeDelta(self.secs + s)
+
+    __radd__ = __add__
+
+    def __sub__(self, o):
+        s = _secs(o)
+        return NotImplemented if s is None else SymTimeDelta(self.secs - s)
+
+    def __rsub__(self, o):
+        if isinstance(o, (_real_dt, SymInstant)):
+            return SymInstant.of(o) - self
+        s = _secs(o)
+        return NotImplemented if s is None else SymTimeDelta(s - self.secs)
+
+    def __neg__(self):
+        return SymTimeDelta(-self.secs)
+
+    def __mul__(self, k):
+        from .values import NUMERIC
+
+        if isinstance(k, (int, float, *NUMERIC)):
+            return SymTimeDelta(self.secs * k)
+        return NotImplemented
+
+    __rmul__ = __mul__
+
+    def __truediv__(self, o):
+        from .values import NUMERIC
+
+        s = _secs(o)
+        if s is not None:
+            return self.secs / s  # ZeroDivisionError when the divisor can be (is) zero: forks
+        if isinstance(o, (int, float, *NUMERIC)):
+            return SymTimeDelta(self.secs / o)
+        return NotImplemented
+
+    def __rtruediv__(self, o):
+        s = _secs(o)
+        return NotImplemented if s is None else s / self.secs
+
+    def _cmp(self, o, op):
+        s = _secs(o)
+        if s is None:
+            if op in ("__eq__", "__ne__"):
+                return op == "__ne__"
+            return NotImplemented
+        return getattr(self.secs, op)(s)
+
+    def __lt__(self, o):
+        return self._cmp(o, "__lt__")
+
+    def __le__(self, o):
+        return self._cmp(o, "__le__")
+
+    def __gt__(self, o):
+        return self._cmp(o, "__gt__")
+
+    def __ge__(self, o):
+        return self._cmp(o, "__ge__")
+
+    def __eq__(self, o):
+        return self._cmp(o, "__eq__")
+
+    def __ne__(self, o):
+        return self._cmp(o, "__ne__")
+
+    __hash__ = None  # type: ignore[assignment]
+
+    def __bool__(self):
+        return bool(self.secs != 0)
+
+    def __sx_concretize__(self, model):
+        from .values import concretize
+
+        return {"timedelta_s": concretize(self.secs, model)}
+
+    def __repr__(self):
+        return "SymTimeDelta(...)"
+
+    def __format__(self, spec):
+        from .strings import tainted
+
+        return tainted("<timedelta>")
+
+    __str__ = __repr__
+
+
+class SymInstant:
+    """a concrete datetime plus a symbolic number of seconds"""
+
+    def __init__(self, base, off):
+        self.base, self.off = base, off
+
+    @staticmethod
+    def of(x):
+        from .values import SymReal
+
+        return x if isinstance(x, SymInstant) else SymInstant(x, SymReal.const(0))
+
+    def __add__(self, o):
+        s = _secs(o)
+        return NotImplemented if s is None else SymInstant(self.base, self.off + s)
+
+    __radd__ = __add__
+
+    def __sub__(self, o):
+        if isinstance(o, SymInstant):
+            return SymTimeDelta(self.off - o.off) + (self.base - o.base)
+        if isinstance(o, _real_dt):
+            return SymTimeDelta(self.off) + (self.base - o)
+        s = _secs(o)
+        return NotImplemented if s is None else SymInstant(self.base, self.off - s)
+
+    def __rsub__(self, o):
+        if isinstance(o, _real_dt):
+            return SymTimeDelta(-self.off) + (o - self.base)
+        return NotImplemented
+
+    def _cmp(self, o, op):
+        if isinstance(o, (_real_dt, SymInstant)):
+            d = self - o
+            from .values import SymReal
+
+            return getattr(d.secs, op)(0)
+        if op in ("__eq__", "__ne__"):
+            return op == "__ne__"
+        return NotImplemented
+
+    def __lt__(self, o):
+        return self._cmp(o, "__lt__")
+
+    def __le__(self, o):
+        return self._cmp(o, "__le__")
+
+    def __gt__(self, o):
+        return self._cmp(o, "__gt__")
+
+    def __ge__(self, o):
+        return self._cmp(o, "__ge__")
+
+    def __eq__(self, o):
+        return self._cmp(o, "__eq__")
+
+    def __ne__(self, o):
+        return self._cmp(o, "__ne__")
+
+    __hash__ = None  # type: ignore[assignment]
+
+    def strftime(self, fmt):
+        from .strings import tainted
+
+        return tainted("<instant>")
+
+    def isoformat(self, *a, **k):
+        from .strings import tainted
+
+        return tainted("<instant>")
+
+    def date(self):
+        raise Unsupported("date() of a symbolic instant")
+
+    def __sx_concretize__(self, model):
+        from .values import concretize
+
+        return {"base": self.base.isoformat(), "plus_s": concretize(self.off, model)}
+
+
+def _sym_num(x):
+    from .values import NUMERIC
+
+    return isinstance(x, NUMERIC)
+
+
+class _TdMeta(type):
+    def __instancecheck__(cls, x):
+        return isinstance(x, (_real_td, SymTimeDelta))
+
+    def __call__(cls, *a, **k):
+        if any(_sym_num(x) for x in a) or any(_sym_num(x) for x in k.values()):
+            names = ["days", "seconds", "microseconds", "milliseconds", "minutes", "hours", "weeks"]
+            kw = dict(zip(names, a))
+            kw.update(k)
+            scale = {"days": 86400, "seconds": 1, "microseconds": 1e-6, "milliseconds": 1e-3, "minutes": 60, "hours": 3600, "weeks": 604800}
+            total = None
+            for n, v in kw.items():
+                t = v * scale[n]
+                total = t if total is None else total + t
+            return SymTimeDelta(total)
+        return _real_td(*a, **k)
+
+
+class SxTimeDelta(metaclass=_TdMeta):
+    min, max, resolution = _real_td.min, _real_td.max, _real_td.resolution
+
+
+# datetime class-level calls with an instance argument (e.g. dt.strftime(obj, fmt))
+SxDateTime.strftime = staticmethod(lambda obj, fmt: obj.strftime(fmt))
+SxDateTime.isoformat = staticmethod(lambda obj, *a, **k: obj.isoformat(*a, **k))
+SxDateTime.timestamp = staticmethod(lambda obj: obj.timestamp())
+SxDateTime.date = staticmethod(lambda obj: obj.date())
+_DtMeta.__instancecheck__ = lambda cls, x: isinstance(x, (_real_dt, SymDateTime, SymInstant))
